@@ -211,7 +211,7 @@ static Verdict run_case(const TCase &c) {
   pixman_format_code_t df = sc.dst.bits.code();
   // (requests whose source coordinates leave the 16-bit range are dropped by design — C04 — so only moderate geometry)
   bool moderate = std::abs(sc.sx) < 16000 && std::abs(sc.sy) < 16000 && std::abs(sc.dx) < 16000 && std::abs(sc.dy) < 16000 && sc.w < 16000 && sc.h < 16000;
-  if (v.ok && moderate && sc.op == PIXMAN_OP_SRC && sc.src.kind == 1 && !sc.has_mask && !sc.dst.has_alpha_map && is_narrow(df) && packed_rgb(df) && !sc.dst.accessors) {
+  if (v.ok && moderate && sc.op == PIXMAN_OP_SRC && sc.src.kind == 1 && !sc.has_mask && !sc.dst.has_alpha_map && is_narrow(df) && packed_rgb(df) && !sc.dst.accessors && !sc.dst.dither) {  // (a dithered store is not the plain truncation)
     uint32_t want = encode8888(df, sc.src.color), dm = defined_mask(df);
     for (auto &bx : R)
       for (int64_t y = bx.y1; y < bx.y2 && v.ok; y++)
